@@ -96,6 +96,9 @@ def gen_case(R, tier):
   name, kind = c.choice(CLQ)
   cap = c.choice([1, 1, 2, 3, 4, 6])
   ncyc = inp.randint(40, 120)
+  if c.random() < 0.4:
+    return {"mode": "open", "cls": name, "kind": kind, "cap": cap, "offers": gen_offers(inp, ncyc, cap),
+            "sched": ["openloop", s.getrandbits(32)], "hash_seed": R.sub_seed("hash"), "uid": "o%x" % (R.seed & 0xffffff)}
   return {"mode": "cl", "cls": name, "kind": kind, "cap": cap, "offers": gen_offers(inp, ncyc, cap),
           "sched": [s.choice(("default", "default_s2", "mamba", "mamba_s2", "simple", "simple_s2", "forced",
                               "adversarial")), s.getrandbits(32)],
@@ -450,7 +453,140 @@ def run_cl(case):
           "stats": stats}
 
 
+# ---------------------------------------------------------------------------
+# open-loop scheduler (OpenLoopCLPass): top-level callee methods are called one at a time; a call
+# runs every block scheduled before the method and rolls the cycle over when a method positioned
+# earlier (or the same one) is called after a later one.
+# ---------------------------------------------------------------------------
+
+OPEN_SRC = '''
+from pymtl3 import *
+from pymtl3.stdlib.queues.cl_queues import {cls}
+
+class Top_{uid}(Component):
+  def construct(s, cap, depth):
+    s.enq = CalleeIfcCL()
+    s.deq = CalleeIfcCL()
+    s.q = {cls}(cap)
+    if depth == 0:
+      s.q.enq //= s.enq
+      s.q.deq //= s.deq
+    else:
+      s.inner = Top_{uid}(cap, depth - 1) if False else None
+      s.q.enq //= s.enq
+      s.q.deq //= s.deq
+  def line_trace(s):
+    return ""
+  def done(s):
+    return True
+'''
+
+
+def run_open(case):
+  import random
+  from collections import deque
+  from ..gen import emit
+  from pymtl3.passes.autotick.OpenLoopCLPass import OpenLoopCLPass
+  from pymtl3.passes.sim.GenDAGPass import GenDAGPass
+  from pymtl3.passes.sim.WrapGreenletPass import WrapGreenletPass
+  D = _rng.Digest()
+  kind, cap = case["kind"], case["cap"]
+  stats = {"fault_counts": {"class.CLopen." + case["cls"]: 1, "sched.openloop": 1}, "sim_cycles": 0,
+           "probes": {"pipe_enq_when_full": 0, "bypass_deq_when_empty": 0, "simultaneous_enq_deq": 0,
+                      "reached_full": 0, "wrapped_nonpow2": 0, "openloop_rollovers": 0}}
+  seams.set_hash_stream(case["hash_seed"])
+  viols = []
+  try:
+    ns, cls, _ = emit.build({"uid": case["uid"], "top": "Top"}, src=OPEN_SRC.format(cls=case["cls"], uid=case["uid"]))
+    top = cls(cap, 0)
+    top.elaborate()
+    top.apply(GenDAGPass())
+    top.apply(WrapGreenletPass())
+    random.seed(case["sched"][1])                # the pass shuffles with the global RNG
+    top.apply(OpenLoopCLPass(print_line_trace=False))
+    top.sim_reset()
+  except Exception as e:
+    return {"violations": [C.exc_violation(e, "build/open/%s" % case["cls"])], "digest": D.hex(),
+            "nontrivial": False, "stats": stats}
+  q = deque()            # sequential model of the content
+  start_n = 0            # occupancy at the start of the current cycle (for the normal queue)
+  cur = top.sim_cycle_count()
+  c_first = cur
+  n = 0
+  got, want = [], []
+  last = None            # last method called in the current cycle
+  full_seen = emptied = False
+
+  def bad(check, **kw):
+    viols.append(C.viol(check, dict(kw, cls=case["cls"], cap=cap, mode="open-loop"), cls=case["cls"], mode="open"))
+  try:
+    for step, (e, d) in enumerate(case["offers"]):
+      for which in (["enq"] if e and not d else ["deq"] if d and not e else
+                    (["enq", "deq"] if (step % 2 == 0) else ["deq", "enq"]) if e and d else []):
+        c0 = top.sim_cycle_count()
+        ifc = getattr(top, which)
+        rdy = bool(ifc.rdy())
+        c1 = top.sim_cycle_count()
+        if c1 != c0:
+          start_n = len(q)
+          stats["probes"]["openloop_rollovers"] += 1
+          last = None
+        if not 0 <= c1 - c0 <= 1:
+          bad("openloop_cycle_jump", step=step, before=c0, after=c1)
+          break
+        # expected roll-over from the M constraints of the queue kind
+        if kind == "pipe" and last is not None:
+          exp_roll = not (last == "deq" and which == "enq")
+        elif kind == "bypass" and last is not None:
+          exp_roll = not (last == "enq" and which == "deq")
+        else:
+          exp_roll = None
+        if exp_roll is not None and c1 == c0 and exp_roll:
+          bad("openloop_no_rollover", step=step, last=last, now=which, kind=kind)
+          break
+        occ = len(q)
+        if kind == "normal":
+          exp = (start_n < cap) if which == "enq" else (start_n > 0)
+        else:
+          exp = (occ < cap) if which == "enq" else (occ > 0)
+        D.add(step, which, rdy, c1 - c_first)
+        if rdy != exp:
+          bad("openloop_rdy", step=step, method=which, got=rdy, want=exp, occupancy=occ, at_cycle_start=start_n)
+          break
+        if rdy:
+          if which == "enq":
+            ifc(n)
+            q.append(n)
+            want.append(n)
+            n += 1
+          else:
+            v = ifc()
+            got.append(v)
+            if not q or v != q[0]:
+              bad("openloop_fifo_order", step=step, got=v, want=q[0] if q else None)
+              break
+            q.popleft()
+          c2 = top.sim_cycle_count()
+          if c2 != c1:
+            bad("openloop_call_rolled_after_rdy", step=step, method=which)
+            break
+        last = which
+        if len(q) == cap:
+          full_seen = True
+          stats["probes"]["reached_full"] += 1
+        if not q and full_seen:
+          emptied = True
+      if viols:
+        break
+  except Exception as e:
+    viols.append(C.exc_violation(e, "sim/open/%s" % case["cls"]))
+  stats["sim_cycles"] = top.sim_cycle_count() - c_first
+  return {"violations": viols[:2], "digest": D.hex(), "nontrivial": full_seen and emptied, "stats": stats}
+
+
 def run_case(case):
+  if case["mode"] == "open":
+    return run_open(case)
   return run_rtl(case) if case["mode"] == "rtl" else run_cl(case)
 
 
